@@ -483,6 +483,10 @@ def plan(tier):
     for w in worlds:
         k = w["k"]
         s = r.randint(0, 2**31 - 1) if k % 3 else r.randint(0, 50)
+        if k % 12 in (0, 1):
+            s = 0  # boundary seed: 0 is falsy, and both a Poisson/Gamma world and a plain one must get it
+        elif k % 12 in (2, 3):
+            s = 1
         h1, h2 = hash_pairs[0] if q else hash_pairs[k % len(hash_pairs)]
         a, b = f"{w['id']}_s{s}_h{h1}", f"{w['id']}_s{s}_h{h2}"
         runs[a], runs[b] = (k, s, h1), (k, s, h2)
